@@ -384,12 +384,13 @@ type batchStats struct {
 	Nontrivial  int                   `json:"nontrivial"`  // first frames that got past the first-byte check
 	Pending     int                   `json:"pending"`     // first frames that asked for attachments
 	Finished    int                   `json:"finished"`    // sequences that produced a packet
-	Classes     map[string]*classStat `json:"classes"`
+	Classes     map[string]*classStat `json:"classes"`     // coarse outcome classes with their shortest input
+	Fine        map[string]int        `json:"fine"`        // per-family detail (counts only)
 	Violations  map[string]*violStat  `json:"violations"`
 }
 
 func newBatchStats() *batchStats {
-	return &batchStats{Classes: map[string]*classStat{}, Violations: map[string]*violStat{}}
+	return &batchStats{Classes: map[string]*classStat{}, Fine: map[string]int{}, Violations: map[string]*violStat{}}
 }
 
 func (b *batchStats) class(c string, frames [][]byte) {
@@ -426,6 +427,9 @@ func (b *batchStats) merge(o *batchStats) {
 	b.Nontrivial += o.Nontrivial
 	b.Pending += o.Pending
 	b.Finished += o.Finished
+	for k, n := range o.Fine {
+		b.Fine[k] += n
+	}
 	for k, c := range o.Classes {
 		s := b.Classes[k]
 		if s == nil {
@@ -468,10 +472,13 @@ func cloneFrames(frames [][]byte) [][]byte {
 const limitForWedgeOracle = 2
 
 // decodeAll calls the decode closure once per family (like serverSocket.onPacket does with one closure and
-// several handlers) and returns the per-family classes.
-func decodeAll(b *batchStats, frames [][]byte, r stepResult) string {
+// several handlers). It returns the coarse outcome (which the process half needs a representative of) and
+// the per-family detail.
+func decodeAll(b *batchStats, frames [][]byte, r stepResult) (coarse, fine string) {
 	b.Finished++
 	var parts []string
+	kinds := map[string]bool{}
+	nOK, nErr, nPanic := 0, 0, 0
 	for _, fam := range familiesFor(r.header.Type) {
 		var err error
 		b.Decodes++
@@ -480,13 +487,29 @@ func decodeAll(b *batchStats, frames [][]byte, r stepResult) string {
 		if p != nil {
 			b.violate(p.key(), frames, fam.name, fmt.Sprintf("decode(%s) panicked: %s; stack: %s", fam.name, p.Raw, p.Stack))
 			parts = append(parts, fam.name+"=PANIC")
+			nPanic++
 			continue
 		}
-		c := errClass(err)
-		c = strings.TrimPrefix(c, "error: ")
+		c := strings.TrimPrefix(errClass(err), "error: ")
+		if err != nil {
+			nErr++
+			kinds[c] = true
+		} else {
+			nOK++
+		}
 		parts = append(parts, fam.name+"="+c)
 	}
-	return strings.Join(parts, " ")
+	switch {
+	case nPanic > 0:
+		coarse = "PANIC"
+	case nErr == 0:
+		coarse = "ok for every family"
+	case nOK == 0:
+		coarse = "error for every family (" + strings.Join(sortedKeys(kinds), "; ") + ")"
+	default:
+		coarse = "error for some families (" + strings.Join(sortedKeys(kinds), "; ") + ")"
+	}
+	return coarse, strings.Join(parts, " ")
 }
 
 func typeName(h *parser.PacketHeader) string {
@@ -518,8 +541,9 @@ func evalFirst(b *batchStats, first []byte) {
 		b.class("Add(first frame): "+c, frames)
 	case stepFinished:
 		b.Nontrivial++
-		d := decodeAll(b, frames, r)
-		b.class(typeName(r.header)+" decode: "+d, frames)
+		c, f := decodeAll(b, frames, r)
+		b.class(typeName(r.header)+" decode: "+c, frames)
+		b.Fine[typeName(r.header)+" decode: "+f]++
 	case stepPending:
 		b.Nontrivial++
 		b.Pending++
@@ -541,15 +565,16 @@ func evalPending(b *batchStats, first []byte) {
 		case stepPanic:
 			b.Evaluations++
 			b.violate(r1.pan.key(), frames, "", fmt.Sprintf("Parser.Add(attachment) panicked: %s; stack: %s", r1.pan.Raw, r1.pan.Stack))
-			b.class("Add(attachment "+a1.name+"): PANIC", frames)
+			b.class("Add(attachment): PANIC", frames)
 			continue
 		case stepErr:
 			b.Evaluations++
-			b.class("Add(attachment "+a1.name+"): "+errClass(r1.err), frames)
+			b.class("Add(attachment): "+errClass(r1.err), frames)
 			continue
 		case stepFinished:
-			d := decodeAll(b, frames, r1)
-			b.class(typeName(r1.header)+"+1("+a1.name+") decode: "+d, frames)
+			c, f := decodeAll(b, frames, r1)
+			b.class(typeName(r1.header)+" + 1 attachment decode: "+c, frames)
+			b.Fine[typeName(r1.header)+"+1("+a1.name+") decode: "+f]++
 			continue
 		}
 		for _, a2 := range attFrames {
@@ -563,13 +588,14 @@ func evalPending(b *batchStats, first []byte) {
 			case stepPanic:
 				b.Evaluations++
 				b.violate(r2.pan.key(), frames, "", fmt.Sprintf("Parser.Add(attachment) panicked: %s; stack: %s", r2.pan.Raw, r2.pan.Stack))
-				b.class("Add(attachment "+a1.name+","+a2.name+"): PANIC", frames)
+				b.class("Add(attachment): PANIC", frames)
 			case stepErr:
 				b.Evaluations++
-				b.class("Add(attachment "+a1.name+","+a2.name+"): "+errClass(r2.err), frames)
+				b.class("Add(attachment): "+errClass(r2.err), frames)
 			case stepFinished:
-				d := decodeAll(b, frames, r2)
-				b.class(typeName(r2.header)+"+2("+a1.name+","+a2.name+") decode: "+d, frames)
+				c, f := decodeAll(b, frames, r2)
+				b.class(typeName(r2.header)+" + 2 attachments decode: "+c, frames)
+				b.Fine[typeName(r2.header)+"+2("+a1.name+","+a2.name+") decode: "+f]++
 			case stepPending:
 				b.Evaluations++
 				b.class("still waiting for attachments after 2", [][]byte{first})
